@@ -34,7 +34,7 @@ theorem two_pow_le {P B : Nat} (h : P ≤ B) : 2 ^ P ≤ 2 ^ B := Nat.pow_le_pow
 theorem lenOk_iff {P n : Nat} (hP : P ≤ 64) : lenOk P n = true ↔ 2 ≤ n ∧ n + 2 ≤ 2 ^ P := by
   unfold lenOk wsub wrappingPow2
   have h64 : (2 : Nat) ^ P ≤ 2 ^ 64 := two_pow_le hP
-  have hpos : 0 < (2 : Nat) ^ P := Nat.pos_pow (by omega)
+  have hpos : 0 < (2 : Nat) ^ P := Nat.pow_pos (by omega)
   by_cases hP64 : P ≥ 64
   · have : P = 64 := by omega
     subst this
@@ -43,7 +43,7 @@ theorem lenOk_iff {P n : Nat} (hP : P ≤ 64) : lenOk P n = true ↔ 2 ≤ n ∧
   · have hlt : (2 : Nat) ^ P < 2 ^ 64 := Nat.pow_lt_pow_right (by omega) (by omega)
     rw [if_neg hP64]
     have e : (2 ^ P + 2 ^ 64 - 1 % 2 ^ 64) % 2 ^ 64 = 2 ^ P - 1 := by
-      have : (1 : Nat) % 2 ^ 64 = 1 := by norm_num
+      have : (1 : Nat) % 2 ^ 64 = 1 := Nat.mod_eq_of_lt (by omega)
       rw [this]
       have : 2 ^ P + 2 ^ 64 - 1 = (2 ^ P - 1) + 2 ^ 64 := by omega
       rw [this, Nat.add_mod_right, Nat.mod_eq_of_lt (by omega)]
@@ -201,6 +201,7 @@ theorem wsub_cum (ok : FastOk B P n) (hf : free = 2 ^ P - n) (hm : Mono h n) (h0
     rcases Nat.eq_zero_or_pos s with h00 | hpos
     · subst h00
       have := cumF_lt_total (h := h) ok hf (i := 1) (by omega)
+      simp only [Nat.zero_add] at *
       omega
     · have := cumF_strict ok hf hm (i := 0) (j := s) hpos (by omega)
       have : cumF P n free h (s + 1) ≤ 2 ^ P := by
@@ -297,7 +298,7 @@ theorem eager_enc_eq_lazy_enc (ok : FastOk B P n) (hf : free = 2 ^ P - n) (hm : 
 
 theorem wsub64_pred {j : Nat} (h1 : 1 ≤ j) (h2 : j < 2 ^ 64) : wsub 64 j 1 = j - 1 := by
   unfold wsub
-  have : (1 : Nat) % 2 ^ 64 = 1 := by norm_num
+  have : (1 : Nat) % 2 ^ 64 = 1 := Nat.mod_eq_of_lt (by omega)
   rw [this]
   have : j + 2 ^ 64 - 1 = (j - 1) + 2 ^ 64 := by omega
   rw [this, Nat.add_mod_right, Nat.mod_eq_of_lt (by omega)]
